@@ -13,6 +13,7 @@ structure DState where
   cur  : String := ""
   proto : Proto.PState := {}
   block : Block.BState := []
+  gate : Gate.GState := {}
   feeds : List (String × List FeedOp) := []      -- per watched instance: records not yet drained (oldest first)
   patterns : List Bytes := []                    -- patterns of the second (filtered) watcher
 
@@ -40,7 +41,8 @@ def step (d : DState) (line : String) : DState × String :=
   | "frag" :: rest => (d, Driver.fragOp rest)
   | "pev" :: rest => let (p, out) := Driver.protoOp d.proto rest; ({ d with proto := p }, out)
   | "bev" :: rest => let (b, out) := Driver.blockOp d.block rest; ({ d with block := b }, out)
-  | ["pend"] => ({ d with proto := {} }, Driver.protoEnd d.proto)
+  | "gev" :: rest => let (g, out) := Driver.gateOp d.gate rest; ({ d with gate := g }, out)
+  | ["pend"] => ({ d with proto := {}, gate := {} }, Driver.protoEnd d.proto)
   | "open" :: id :: backend :: _ =>
     ({ d with cur := id }.putSv { store := { pebble := backend == "pebble" } }, "ok")
   | ["inst", id] => ({ d with cur := id }, "ok")
